@@ -14,6 +14,8 @@ def has(case, extra):
 
 
 PREDICATES = {
+    # a precursor peptide on a location that includes the stop codon, as the RiPP modules build it
+    "C09-F1": lambda case, clause: case.get("via") == "prepeptide-stop" and clause in ("prepeptide-stop-not-three-per-residue", "prepeptide-stop-wrong-bases"),
     # a gene function without a product whose description has the shape 'name: text' (what the genefunctions tools write)
     "C10-F3": lambda case, clause: has(case, "smcog-function") and clause in ("genbank-description-differs", "json-description-differs"),
     # a spliced gene with one exon on either side of the few bases an origin-spanning region leaves out
